@@ -140,11 +140,13 @@ Proof. exact token_set_translated. Qed.
    Generated/SourceParams.v: src_accept_loop -- the token-or-permit wait, `let Some(token) = .. else { return }`, the
    revocation check, the accept-or-permit match with the statements of its four arms), under a small-step semantics
    whose pause points are the await points and the window before the revocation check (Tie/AcceptTie.v), makes exactly
-   the accept-task transitions of the system the theorems above are about -- for every pool size and state *)
+   the accept-task transitions of the system the theorems above are about -- for every pool size and state; the step
+   that sends the stopped signal is the statement that FOLLOWS accept_loop in the task HttpServerBuilder::spawn starts
+   (src/lib.rs, translated too: src_spawn_task) *)
 Theorem c12_accept_loop_is_the_source :
   forall n s ev, eval_accept n src_accept_loop s ev = step true n s (action_of ev).
 Proof. exact accept_loop_tie. Qed.
-Theorem c12_accept_translation_complete : src_problems_accept = 0%nat.
+Theorem c12_accept_translation_complete : src_problems_accept = 0%nat /\ src_problems_spawn = 0%nat.
 Proof. exact accept_translated. Qed.
 
 Print Assumptions c12_pool_conservation.
